@@ -30,9 +30,9 @@ EncDec(cp, s) == [k \in 1..Len(s) |-> IF Rep(cp, s[k]) THEN s[k] ELSE 63]
 
 StrFields == {"title", "subject", "author", "comments", "creating_application"}
 
-VARIABLES p, cp, hist
-vars == <<p, cp, hist>>
-view == <<p, cp>>
+VARIABLES p, cp, disk, hist      \* disk: what the last save left on the medium (alphabet "resave" only; a save does not
+vars == <<p, cp, disk, hist>>    \* change what the getters of the SAME object report, so without it a save would be invisible
+view == <<p, cp, disk>>          \* to TLC and "save, switch the code page, save again" would never be replayed)
 
 Init0 == [title |-> StrV(TitleInstaller), subject |-> Absent, author |-> Absent, comments |-> Absent,
           creating_application |-> Absent, uuid |-> Absent, word_count |-> Absent, creation_time |-> Absent,
@@ -70,13 +70,18 @@ Alphabet ==
          \cup {E("Set", [field |-> "codepage", value |-> IntV(c)]) : c \in {65001, 1252}}
          \cup {E("Set", [field |-> "comments", value |-> v]) : v \in {StrV(<<120>>), Absent}}
          \cup {E("SaveReopen", [x |-> 0])}
+    [] Cfg = "resave" ->        \* several saves through ONE package object: every save writes ALL strings in the page of that moment
+         {E("Set", [field |-> "author", value |-> v]) : v \in {StrV(e1), StrV(ja), Absent}}
+         \cup {E("Set", [field |-> "comments", value |-> StrV(e2)])}
+         \cup {E("Set", [field |-> "codepage", value |-> IntV(c)]) : c \in {65001, 1252, 932}}
+         \cup {E("Save", [x |-> 0]), E("Reopen", [x |-> 0])}
     [] Cfg = "misc" ->
          {E("Set", [field |-> "title", value |-> v]) : v \in {StrV(e1), Absent}}
          \cup {E("Set", [field |-> "subject", value |-> v]) : v \in {StrV(<<115, 117>>), Absent}}
          \cup {E("Set", [field |-> "creating_application", value |-> v]) : v \in {StrV(<<97, 112, 112>>), Absent}}
          \cup {E("Set", [field |-> "uuid", value |-> v]) : v \in {StrV(<<48, 49, 50, 51, 52, 53, 54, 55, 45, 56, 57, 97, 98, 45, 99, 100, 101, 102, 45, 48, 49, 50, 51, 45, 52, 53, 54, 55, 56, 57, 97, 98, 99, 100, 101, 102>>), Absent}}
          \cup {E("Set", [field |-> "word_count", value |-> v]) : v \in {IntV(2), IntV(-1), Absent}}
-         \cup {E("Set", [field |-> "creation_time", value |-> v]) : v \in {[t |-> "131343003960000000"], Absent}}
+         \cup {E("Set", [field |-> "creation_time", value |-> v]) : v \in {[t |-> "131343003960000000"], [t |-> "131343003961234567"], Absent}}      \* whole seconds; every 100 ns digit in use
          \cup {E("Set", [field |-> "codepage", value |-> IntV(c)]) : c \in {65001, 1252}}
          \cup {E("SaveReopen", [x |-> 0])}
 
@@ -84,17 +89,22 @@ Log(ev) == hist' = [path |-> Append(hist.path, hist.last), last |-> ev]
 
 Do(ev) ==
   LET f == ev.args.field v == ev.args.value IN
-  CASE ev.op = "SaveReopen" -> p' = ReadBack(p, cp) /\ cp' = cp /\ Log(ev)
-    [] f = "codepage" -> cp' = v.i /\ p' = p /\ Log(ev)
+  CASE ev.op = "SaveReopen" -> p' = ReadBack(p, cp) /\ cp' = cp /\ Log(ev) /\ UNCHANGED disk
+    \* prev: the code page of the PREVIOUS save through this object (0: none) - "saved under one page, then under
+    \* another" is a history of its own, which the saved values alone would not tell apart from a single save
+    [] ev.op = "Save" -> disk' = [p |-> ReadBack(p, cp), cp |-> cp, unspec |-> Unspec(p, cp), prev |-> disk.cp * (IF disk.fresh THEN 0 ELSE 1), fresh |-> FALSE]
+                         /\ UNCHANGED <<p, cp>> /\ Log(ev)
+    [] ev.op = "Reopen" -> p' = disk.p /\ cp' = disk.cp /\ disk' = [disk EXCEPT !.prev = 0, !.fresh = TRUE] /\ Log(ev)
+    [] f = "codepage" -> cp' = v.i /\ p' = p /\ Log(ev) /\ UNCHANGED disk
     [] f = "arch" -> /\ p' = [p EXCEPT !.tmpl = [arch |-> IF v = Absent THEN <<>> ELSE v.s,
                                                langs |-> IF p.tmpl = Absent THEN <<>> ELSE p.tmpl.langs]]
-                     /\ cp' = cp /\ Log(ev)
+                     /\ cp' = cp /\ Log(ev) /\ UNCHANGED disk
     [] f = "languages" -> /\ p' = [p EXCEPT !.tmpl = [arch |-> IF p.tmpl = Absent THEN <<>> ELSE p.tmpl.arch,
                                                     langs |-> IF v = Absent THEN <<>> ELSE v.l]]
-                          /\ cp' = cp /\ Log(ev)
-    [] OTHER -> p' = [p EXCEPT ![f] = v] /\ cp' = cp /\ Log(ev)
+                          /\ cp' = cp /\ Log(ev) /\ UNCHANGED disk
+    [] OTHER -> p' = [p EXCEPT ![f] = v] /\ cp' = cp /\ Log(ev) /\ UNCHANGED disk
 
-MCInit == p = Init0 /\ cp = 65001 /\ hist = [path |-> <<>>, last |-> E("Create", [x |-> 0])]
+MCInit == p = Init0 /\ cp = 65001 /\ disk = [p |-> Init0, cp |-> 65001, unspec |-> {}, prev |-> 0, fresh |-> TRUE] /\ hist = [path |-> <<>>, last |-> E("Create", [x |-> 0])]
 MCNext == \E ev \in Alphabet : Do(ev)
 MCSpec == MCInit /\ [][MCNext]_vars
 
@@ -108,5 +118,6 @@ TemplateFrame == [][ (hist'.last.op = "Set" /\ hist'.last.args.field = "arch") =
 
 Emit == PrintT(<<"EDGE", ToJson([path |-> SubSeq(hist'.path, 2, Len(hist'.path)), ev |-> hist'.last,
                                  dst |-> Obs(p', cp'),
-                                 unspec |-> IF hist'.last.op = "SaveReopen" THEN SetToSeq(Unspec(p, cp)) ELSE <<>>])>>)
+                                 unspec |-> IF hist'.last.op = "SaveReopen" THEN SetToSeq(Unspec(p, cp))
+                                            ELSE IF hist'.last.op = "Reopen" THEN SetToSeq(disk.unspec) ELSE <<>>])>>)
 =============================================================================
